@@ -26,7 +26,7 @@ RULE = ('E2 explicit-state exploration of library state: events (42: '
         'of that event alone in a fresh interpreter (one subprocess per '
         'event x switch value) and mutable members of returned objects are '
         'disjoint by id from each other and from the library. E3 schedule '
-        'exploration: 12 harnesses of 2 or 3 real threads, every executed line '
+        'exploration: 14 harnesses of 2 or 3 real threads, every executed line '
         'of pamqp a scheduling point, every schedule with <= 2 (thorough 3) '
         'preemptions; oracle: each thread\'s result equals its sequential '
         'result; a witness harness with a toggle shows the interleavings are '
@@ -309,6 +309,17 @@ HARNESSES = [
             p.commands.Basic.Nack(5, True, False), 1).hex()),
         _call('unmarshal Basic.Ack',
               lambda p: _view(p.frame.unmarshal(ACK)))], 2, 3),
+    ('method encode || method encode (other channel, other size)', [
+        _call('marshal Basic.Nack ch 1', lambda p: p.frame.marshal(
+            p.commands.Basic.Nack(5, True, False), 1).hex()),
+        _call('marshal Basic.Cancel ch 515', lambda p: p.frame.marshal(
+            p.commands.Basic.Cancel('consumer-tag', True), 515).hex())],
+     2, 3),
+    ('body encode || method encode', [
+        _call('marshal ContentBody ch 7', lambda p: p.frame.marshal(
+            p.body.ContentBody(b'payload' * 40), 7).hex()),
+        _call('marshal Basic.Ack ch 1', lambda p: p.frame.marshal(
+            p.commands.Basic.Ack(9, False), 1).hex())], 2, 3),
     ('header encode || header decode', [
         _call('marshal ContentHeader', lambda p: p.frame.marshal(
             p.header.ContentHeader(0, 3, p.commands.Basic.Properties(
@@ -344,7 +355,7 @@ HARNESSES = [
             p.decode.field_table(ENC_T1))),
         _call('Queue.Declare() mutate', _construct_mutate)], 1, 2),
 ]
-WITNESS = 10
+WITNESS = 12
 
 
 def reset_switch():
